@@ -153,6 +153,13 @@ def rhsFull (s : Spec) (Y X : OMat) (cols : List Nat) : Option (List Prior) → 
   | none => rhsData s Y X cols
   | some ps => QMat.hstack (rhsData s Y X cols) (dummyRhs s ps)
 
+/-- with prior observations the code first regresses `y0` on the exogenous regressors and the intercept alone (to
+scale the dummies by the residual std; the scale then never reaches the dummies, see above) — that regression
+can fail on its own (`LinAlgError`) when the few fitted columns of `[x; 1]` are collinear -/
+def priorScalingOk (s : Spec) (Y X : OMat) (cols : List Nat) : Option (List Prior) → Bool
+  | none => true
+  | some _ => (ols (lhsData s Y cols) (QMat.block (rhsData s Y X cols) s.numLagged s.numRhs 0 cols.length)).isSome
+
 /-- fitted value `A y1 + B x + c` of variable `i` at base period `t` (requires finite regressors) -/
 def fitAt (s : Spec) (beta : QMat) (Y X : OMat) (i t : Nat) : Rat :=
   sumTo s.numRhs (fun r => beta.get i r * (reg s Y X r t).getD 0)
@@ -176,6 +183,7 @@ def covResiduals (s : Spec) (u : OMat) (cols : List Nat) (denom : Int) : QMat :=
 def estimate (s : Spec) (dof : Bool) (Y X : OMat) (priors : Option (List Prior)) : Except Err Estimate :=
   let cols := fitted s Y X
   if cols.length = 0 then .error .noData else
+  if !(priorScalingOk s Y X cols priors) then .error .singular else
   let lhsE := lhsFull s Y cols priors
   let rhsE := rhsFull s Y X cols priors
   match ols lhsE rhsE with
